@@ -185,8 +185,30 @@ let check inp obs =
       tags = "pbraw-" ^ which ^ (match o with "ok" :: _ -> ",go-ok" | _ -> ",go-err"); detail = "" }
   | _ -> fail "C33: bad input %s" (if String.length inp > 200 then String.sub inp 0 200 else inp)
 
+(* vm_compute cross-check of the SCALE decoders: the decode recomputed inside Coq at the schema
+   constants of C33.Model (small inputs) *)
+let coq inp obs =
+  match split_ws inp with
+  | ["dec"; name; _; hx] when name <> "body" ->
+    (match List.assoc_opt name dtys with
+     | None -> None
+     | Some (d, t) ->
+       let bs = bytes_of_hex hx in
+       if List.length bs > 400 then None else
+       let (_, cost) = run_decode current t bs in
+       if n_lt (n_of_int 20000) cost then None else
+       (match split_ws obs with
+        | "ok" :: vt :: _ when not (String.contains vt '?') ->
+          (try Some (Printf.sprintf "dec_value_matches (decode_res current s_%s %s) (Some %s)"
+                       name (coq_bytes bs) (coq_value (parse_value d vt)))
+           with Parse _ -> None)
+        | "err" :: _ -> Some (Printf.sprintf "dec_value_matches (decode_res current s_%s %s) None" name (coq_bytes bs))
+        | _ -> None))
+  | _ -> None
+
 let () =
   if Sys.getenv_opt "VERIF_BIGSTACK" = None then
     exit (Sys.command ("ulimit -s 4000000 2>/dev/null || ulimit -s unlimited 2>/dev/null; ulimit -v 12000000 2>/dev/null; VERIF_BIGSTACK=1 exec "
-                       ^ Filename.quote Sys.executable_name))
-  else run_driver check
+                       ^ Filename.quote Sys.executable_name
+                       ^ (if Array.length Sys.argv > 1 then " " ^ Filename.quote Sys.argv.(1) else "")))
+  else run_driver ~coq check
